@@ -36,11 +36,32 @@ def sim_case(
         ratio = draw(st.one_of(st.floats(0.01, 0.99), st.floats(1.0, 5.0).map(lambda u: 1.0 - 10.0 ** (-u))))
         case.update({"p_i": pi, "p_f": pi * ratio, "schedule": {"kind": "none"}})
         return case
+    if cls == "twophase":
+        # shipped oil+water tables through FlowPropertiesTwoPhase.from_table (user-diffusivity branch of the wrapper)
+        from vf import mptables
+
+        rp = draw(mptables.relperm_params())
+        case.update(
+            {
+                "mp_table": {"family": "shipped", "thin": draw(st.sampled_from([1, 3, 10]))},
+                "relperm": rp,
+                "Sw": rp["S_wc"] * draw(st.sampled_from([1.0, 0.5, 0.0])),
+                "rho": {"rho_o0": 0.8, "rho_g0": draw(st.sampled_from([1.03e-3, 1e-2])), "rho_w0": 1.0},
+                "phi": draw(st.floats(0.05, 0.3)),
+                "pair": draw(tables.pressure_pair()),
+                "schedule": draw(grids.schedule_spec()) if schedules else {"kind": "none"},
+            }
+        )
+        return case
     case["table"] = draw(tables.table_spec(table_nmax, with_library, families))
     case["container"] = draw(st.sampled_from(["dict", "dataframe"]))
     case["pair"] = draw(tables.pressure_pair())
     case["schedule"] = draw(grids.schedule_spec()) if schedules else {"kind": "none"}
     return case
+
+
+class Inadmissible(Exception):
+    """The generated configuration is outside the property's domain (counted as a discarded case)."""
 
 
 @dataclass
@@ -84,6 +105,32 @@ def build_fluid(case):
     return tab, fluid, p_f, p_i
 
 
+def build_twophase(case):
+    """-> (fluid, p_f, p_i, first table pressure) for the 'twophase' class, or None if the table is inadmissible."""
+    import warnings
+
+    from bluebonnet.flow import FlowPropertiesTwoPhase, RelPermParams, relative_permeabilities_twophase
+
+    from vf import mptables as mp
+
+    tab = mp.build(case["mp_table"], case["Sw"])
+    df_kr = lib("relative_permeabilities_twophase", relative_permeabilities_twophase, RelPermParams(**case["relperm"]), case["Sw"])
+    kr_table = {k: np.asarray(df_kr[k], float) for k in ("So", "Sg", "Sw", "kro", "krg", "krw")}
+    lam = mp.mobility_doc(tab, mp.kr_lookup(kr_table), case["rho"], tab["pressure"], tab["So"])
+    st_hi = mp.storage_doc(tab, case["rho"], case["phi"], case["Sw"], tab["pressure"] + 0.5, tab["So"])
+    st_lo = mp.storage_doc(tab, case["rho"], case["phi"], case["Sw"], tab["pressure"] - 0.5, tab["So"])
+    if not (np.all(lam > 0) and np.all(st_hi - st_lo > 0)):
+        return None  # "every fluid table with positive diffusivity": this one is not
+    p = tab["pressure"]
+    k = min(len(p) - 1, max(3, int(round(case["pair"]["pi_frac"] * (len(p) - 1)))))
+    p_i = float(p[k])  # on a node: the user-diffusivity branch gives m_i = 1 there
+    p_f = max(float(p[1]), min(case["pair"]["ratio"] * p_i, float(p[k - 1])))
+    with warnings.catch_warnings():
+        warnings.simplefilter("ignore")
+        fluid = lib("FlowPropertiesTwoPhase.from_table", FlowPropertiesTwoPhase.from_table, dict(tab), dict(kr_table), dict(case["rho"]), case["phi"], case["Sw"], p_i)
+    return fluid, p_f, p_i, float(p[1])
+
+
 def run(case, simulate=True) -> Run:
     from bluebonnet.flow import IdealReservoir, SinglePhaseReservoir
 
@@ -96,9 +143,21 @@ def run(case, simulate=True) -> Run:
             lib("IdealReservoir.simulate", res.simulate, time)
         m = np.asarray(res.pseudopressure, float) if simulate else None
         return Run(case, res, None, None, time, m, 1.0, np.zeros(len(time)), p_f, p_i, None, float((nx - 1) ** 2))
-    tab, fluid, p_f, p_i = build_fluid(case)
-    res = SinglePhaseReservoir(nx, p_f, p_i, fluid)
-    sched = grids.build_schedule(case["schedule"], len(time), p_f, p_i, float(tab["pressure"][0]))
+    if case["cls"] == "twophase":
+        from bluebonnet.flow import TwoPhaseReservoir
+
+        built = build_twophase(case)
+        if built is None:
+            raise Inadmissible("two-phase table without positive mobility / storage derivative")
+        fluid, p_f, p_i, p_lo = built
+        tab = None
+        res = TwoPhaseReservoir(nx, p_f, p_i, fluid, case["Sw"])
+        sched = None  # TwoPhaseReservoir.simulate takes no schedule
+    else:
+        tab, fluid, p_f, p_i = build_fluid(case)
+        res = SinglePhaseReservoir(nx, p_f, p_i, fluid)
+        p_lo = float(tab["pressure"][0])
+        sched = grids.build_schedule(case["schedule"], len(time), p_f, p_i, p_lo)
     if simulate:
         if sched is None:
             lib("SinglePhaseReservoir.simulate", res.simulate, time)
@@ -113,7 +172,9 @@ def run(case, simulate=True) -> Run:
 
 def labels(case, r: Run | None = None):
     out = {"cls": case["cls"], "grid": grids.grid_label(case["time"]), "nx": "3-12" if case["nx"] <= 12 else ("13-60" if case["nx"] <= 60 else ("61-150" if case["nx"] <= 150 else ">150"))}
-    if case["cls"] != "ideal":
+    if case["cls"] == "twophase":
+        out["table"] = "shipped:oil+water (two-phase)"
+    elif case["cls"] != "ideal":
         t = case["table"]
         out["table"] = t["family"] + (":" + t["name"] if t["family"] == "shipped" else (":k=1" if tables.constant_diffusivity(t) else ""))
         out["schedule"] = case["schedule"]["kind"]
